@@ -122,6 +122,10 @@ Inductive lang := LC | LCpp | LPy | LHtml.
 Definition lang_eqb (a b : lang) : bool :=
   match a, b with LC, LC | LCpp, LCpp | LPy, LPy | LHtml, LHtml => true | _, _ => false end.
 
+(* a --configuration file: its location relative to the project root (the directory that holds `in/`), and the value it
+   sets for one language option (None = does not set it).  Files loaded later override earlier ones. *)
+Record cfgfile := { cf_path : path; cf_val : option N }.
+
 Record cfg := {
   c_lang : lang;
   c_ext : str;                    (* ".h" *)
@@ -132,6 +136,7 @@ Record cfg := {
   c_prefer_sys : bool;            (* prefer_system_includes: <p> instead of "p" *)
   c_support_incs : list str;      (* serialization support headers as include paths, unquoted *)
   c_support_files : list path;    (* files written by the SupportGenerator *)
+  c_config_files : list cfgfile;  (* --configuration files in command-line order, spelled relative to the working directory *)
   c_user_templates : bool;        (* --templates / --support-templates directories given (they live next to the inputs) *)
 }.
 
@@ -198,6 +203,10 @@ Record src_facts := {
   sf_platform_gated : bool;    (* _create_platform_version: everything but python_version under `if embed_auditing_info` *)
   sf_clock_only_now_utc : bool;(* the only clock read is `self._env.now_utc = datetime.datetime.utcnow()` *)
   sf_audit_threaded : bool;    (* generate_all passes embed_auditing_info to update_nunavut_globals, which sets the flag *)
+  sf_config_cmdline_order : bool; (* ArgparseRunner._create_language_context hands the --configuration files to the builder in
+                                     command-line order (no sorted()/set on the user-supplied paths) *)
+  sf_outputs_always_written : bool; (* generate_all/_generate_header/_copy_header/_generate_code never skip a file depending on the
+                                       state of the output directory (no exists()/stat()/mtime test, no continue) *)
   sf_nested_sorted : bool;     (* Namespace.get_nested_namespaces returns sorted(set, key = the attribute __eq__ compares) and is the
                                   only iteration of _nested_namespaces (9b93945) *)
   sf_natsort_total : bool;     (* html _natural_sort: the sort key ends in the exact name (ties broken), see gen_sorts *)
@@ -208,7 +217,8 @@ Record src_facts := {
 Definition src_facts_ok (f : src_facts) : bool :=
   sf_inc_sorted f && sf_imports_sorted f && sf_templates_sorted f && sf_platform_gated f
   && sf_clock_only_now_utc f && sf_audit_threaded f && sf_gzip_mtime_fixed f
-  && sf_natsort_total f && sf_template_sets_pure f && sf_nested_sorted f.
+  && sf_natsort_total f && sf_template_sets_pure f && sf_nested_sorted f
+  && sf_config_cmdline_order f && sf_outputs_always_written f.
 
 Definition kind_eqb (a b : akind) : bool :=
   match a, b with
@@ -243,6 +253,14 @@ Inductive sort_site :=
                          the key is the attribute Namespace.__eq__ compares, so distinct set members have distinct keys *)
 | SortHtmlNatural     (* lang/html/__init__.py _natural_sort: sorted(instance, key=natural_sort_key) *)
 | SortUnknown.
+
+(* sorted()/sort() applied to user-supplied path strings (command line, environment): the spelling of a relative path depends
+   on the working directory, so such an order is an ambient read unless the consumer ignores the order *)
+Inductive path_sort_site :=
+| PsEnvLookupDirs     (* cli/__init__.py main: extra_includes += sorted(extra_includes_from_env): lookup directories; pydsdl
+                         resolves and re-sorts them, the order handed over is irrelevant *)
+| PsUnknown.
+Definition path_sort_modelled (s : path_sort_site) : bool := match s with PsEnvLookupDirs => true | PsUnknown => false end.
 
 (* ambient reads in the Python sources *)
 Inductive read_kind := RClock | RCwd | RResolve | RAbsPath | REnviron | RPlatform | RRandom.
@@ -299,7 +317,24 @@ Definition is_child (p c : nsname) : bool :=
 Inductive item := INs (n : nsname) | ITy (d : tydecl) | ISup (p : path).
 Record audit := { a_clock : N; a_abs : path }.
 (* header lines that show ambient data *)
-Inductive hval := HClock (t : N) | HPath (p : path).
+Inductive hval := HClock (t : N) | HPath (p : path) | HOpt (v : option N).
+
+(* spelling of a file relative to a working directory (os.path.relpath): `..` for every remaining cwd component *)
+Fixpoint strip_common (a b : path) : path * path :=
+  match a, b with
+  | x :: a', y :: b' => if str_eqb x y then strip_common a' b' else (a, b)
+  | _, _ => (a, b)
+  end.
+Definition relspell (cwd file : path) : str :=
+  let '(up, down) := strip_common cwd file in join [47] (map (fun _ => [46; 46]) up ++ down).
+
+(* the value of the option after loading the files in the order the runner uses: command-line order, or (mutation) sorted by
+   the spelling of the paths as typed, which depends on the working directory *)
+Definition load_order (f : src_facts) (cwd root : path) (l : list cfgfile) : list cfgfile :=
+  if sf_config_cmdline_order f then l
+  else gsort (fun a b => str_leb (relspell cwd (root ++ cf_path a)) (relspell cwd (root ++ cf_path b))) l.
+Definition last_val (l : list cfgfile) : option N :=
+  fold_left (fun acc x => match cf_val x with Some v => Some v | None => acc end) l None.
 
 (* the order in which templates see nested namespaces when they sort them (html: natural_sort_namespace) *)
 Definition nat_leb (f : src_facts) : str -> str -> bool :=
@@ -402,9 +437,14 @@ Section Run.
          | KTmplSets => if c_user_templates c && negb (sf_template_sets_pure sf) then Some (HPath (e_abs e)) else None
          end.
 
+  (* the effective language option (every generated file shows the options: banner, static_asserts, support header) *)
+  Definition eff_option (e : env) (c : cfg) : option N :=
+    last_val (load_order sf (e_cwd e) (removelast (e_abs e)) (c_config_files c)).
+
   Definition header (e : env) (c : cfg) (it : item) : list (option hval) :=
     map (eval_site e c it)
-        (filter (fun s => lang_eqb (s_lang s) (c_lang c) && group_eqb (s_group s) (group_of it)) tbl).
+        (filter (fun s => lang_eqb (s_lang s) (c_lang c) && group_eqb (s_group s) (group_of it)) tbl)
+    ++ match c_config_files c with [] => [] | _ => [Some (HOpt (eff_option e c))] end.
 
   (* what a namespace page's template sees when it iterates nested namespaces *)
   Definition ns_sorted_in_templates (c : cfg) : bool := negb (ungated tbl (c_lang c) KNsIter).
@@ -441,6 +481,18 @@ Section Run.
 
   Definition files (e : env) (c : cfg) (I : list tydecl) (p : path) : option fcontent :=
     lookup_last p (writes e c I) None.
+
+  (* a run into an output directory that already holds files [fs0] (from an earlier run with other options, at another
+     time): a file is skipped only if the code looks at the directory before writing (sf_outputs_always_written = false:
+     the support generator keeps an existing support file) *)
+  Definition writes_into (fs0 : list (path * fcontent)) (e : env) (c : cfg) (I : list tydecl) : list (path * fcontent) :=
+    flat_map (fun it => match it with
+                        | ISup p => if sf_outputs_always_written sf || negb (existsb (fun w => strs_eqb (fst w) p) fs0)
+                                    then [mk_write e c I it] else []
+                        | _ => [mk_write e c I it]
+                        end) (gen_order e c I).
+  Definition files_into (fs0 : list (path * fcontent)) (e : env) (c : cfg) (I : list tydecl) (p : path) : option fcontent :=
+    lookup_last p (fs0 ++ writes_into fs0 e c I) None.
 
   Definition out_paths (e : env) (c : cfg) (I : list tydecl) : list path := map fst (writes e c I).
 End Run.
@@ -482,6 +534,7 @@ Definition hval_eqb (a b : hval) : bool :=
   match a, b with
   | HClock x, HClock y => x =? y
   | HPath x, HPath y => strs_eqb x y
+  | HOpt x, HOpt y => match x, y with Some a, Some b => a =? b | None, None => true | _, _ => false end
   | _, _ => false
   end.
 Definition ohval_eqb (a b : option hval) : bool :=
@@ -551,21 +604,29 @@ Definition tbl_gated_only : list site :=
 
 Definition facts_all_true : src_facts :=
   {| sf_inc_sorted := true; sf_imports_sorted := true; sf_templates_sorted := true; sf_platform_gated := true;
-     sf_clock_only_now_utc := true; sf_audit_threaded := true; sf_nested_sorted := true; sf_natsort_total := true; sf_template_sets_pure := true; sf_gzip_mtime_fixed := true |}.
+     sf_clock_only_now_utc := true; sf_audit_threaded := true; sf_config_cmdline_order := true; sf_outputs_always_written := true; sf_nested_sorted := true; sf_natsort_total := true; sf_template_sets_pure := true; sf_gzip_mtime_fixed := true |}.
 Definition facts_natsort_ties : src_facts :=
   {| sf_inc_sorted := true; sf_imports_sorted := true; sf_templates_sorted := true; sf_platform_gated := true;
-     sf_clock_only_now_utc := true; sf_audit_threaded := true; sf_nested_sorted := false; sf_natsort_total := false; sf_template_sets_pure := true;
+     sf_clock_only_now_utc := true; sf_audit_threaded := true; sf_config_cmdline_order := true; sf_outputs_always_written := true; sf_nested_sorted := false; sf_natsort_total := false; sf_template_sets_pure := true;
      sf_gzip_mtime_fixed := true |}.
 Definition facts_tmplsets_paths : src_facts :=
   {| sf_inc_sorted := true; sf_imports_sorted := true; sf_templates_sorted := true; sf_platform_gated := true;
-     sf_clock_only_now_utc := true; sf_audit_threaded := true; sf_nested_sorted := true; sf_natsort_total := true; sf_template_sets_pure := false;
+     sf_clock_only_now_utc := true; sf_audit_threaded := true; sf_config_cmdline_order := true; sf_outputs_always_written := true; sf_nested_sorted := true; sf_natsort_total := true; sf_template_sets_pure := false;
      sf_gzip_mtime_fixed := true |}.
 Definition tbl_tmplsets : list site :=
   [ {| s_lang := LCpp; s_group := GType; s_kind := KTmplSets; s_gated := false; s_line := 34 |} ].
+Definition facts_config_sorted : src_facts :=
+  {| sf_inc_sorted := true; sf_imports_sorted := true; sf_templates_sorted := true; sf_platform_gated := true;
+     sf_clock_only_now_utc := true; sf_audit_threaded := true; sf_config_cmdline_order := false; sf_outputs_always_written := true;
+     sf_nested_sorted := true; sf_natsort_total := true; sf_template_sets_pure := true; sf_gzip_mtime_fixed := true |}.
+Definition facts_support_kept : src_facts :=
+  {| sf_inc_sorted := true; sf_imports_sorted := true; sf_templates_sorted := true; sf_platform_gated := true;
+     sf_clock_only_now_utc := true; sf_audit_threaded := true; sf_config_cmdline_order := true; sf_outputs_always_written := false;
+     sf_nested_sorted := true; sf_natsort_total := true; sf_template_sets_pure := true; sf_gzip_mtime_fixed := true |}.
 Definition facts_nested_unsorted : src_facts :=
   {| sf_inc_sorted := true; sf_imports_sorted := true; sf_templates_sorted := true; sf_platform_gated := true;
-     sf_clock_only_now_utc := true; sf_audit_threaded := true; sf_nested_sorted := false; sf_natsort_total := true;
+     sf_clock_only_now_utc := true; sf_audit_threaded := true; sf_config_cmdline_order := true; sf_outputs_always_written := true; sf_nested_sorted := false; sf_natsort_total := true;
      sf_template_sets_pure := true; sf_gzip_mtime_fixed := true |}.
 Definition facts_inc_unsorted : src_facts :=
   {| sf_inc_sorted := false; sf_imports_sorted := true; sf_templates_sorted := true; sf_platform_gated := true;
-     sf_clock_only_now_utc := true; sf_audit_threaded := true; sf_nested_sorted := true; sf_natsort_total := true; sf_template_sets_pure := true; sf_gzip_mtime_fixed := true |}.
+     sf_clock_only_now_utc := true; sf_audit_threaded := true; sf_config_cmdline_order := true; sf_outputs_always_written := true; sf_nested_sorted := true; sf_natsort_total := true; sf_template_sets_pure := true; sf_gzip_mtime_fixed := true |}.
